@@ -38,13 +38,27 @@ type base struct {
 func pickTy(r *lib.Rng, concrete bool) string {
 	if concrete {
 		// few distinct types so that agreement is frequent
-		return []string{"T1", "T1", "T2", "T3", "M"}[r.Intn(5)]
+		return []string{"T1", "T1", "T1", "T2", "T3", "M", "M", "NM", "NM", "P1", "P3", "BI"}[r.Intn(12)]
 	}
-	return []string{"T1", "T1", "T2", "T3", "M", "I1", "I2", "I2", "any", "any"}[r.Intn(10)]
+	return []string{"T1", "T1", "T1", "T2", "T3", "M", "M", "NM", "NM", "P1", "P3", "BI",
+		"I1", "I2", "I2", "I2", "I2b", "GI", "GI", "GS", "any", "any", "any"}[r.Intn(23)]
 }
 
-// a type a value flowing at static type cur may legitimately be fed into
+// types that a careless assignability test confuses with t although they are different types
+// with no subtype relation (same underlying type, value vs pointer, the other instance of a
+// generic interface): connecting them must be rejected
+var nearMiss = map[string][]string{
+	"M": {"NM"}, "NM": {"M"}, "T1": {"P1"}, "P1": {"T1"}, "T3": {"P3"}, "P3": {"T3", "P1"},
+	"GI": {"GS"}, "GS": {"GI", "BI"}, "BI": {"GS"},
+}
+
+// a type a value flowing at static type cur may legitimately be fed into (1 in 12: a near miss)
 func compatible(r *lib.Rng, cur string, concrete bool) string {
+	if nm := nearMiss[cur]; len(nm) > 0 && r.Chance(1, 12) {
+		if t := nm[r.Intn(len(nm))]; !concrete || !isIface(t) {
+			return t
+		}
+	}
 	if concrete || r.Chance(1, 2) {
 		return cur
 	}
@@ -329,10 +343,15 @@ func (b *base) withIDs() (nodes, conns []Op) {
 
 func (engine) Generate(r *lib.Rng, tier string, i int) any {
 	seed := runSeed()
-	exhaustive, kmax, rmax := 3000, 5, 7 // blocks: sizes cycle 3,4,5 -> 6+24+120 = 150 per triple
+	exhaustive, kmax, rmax := 2400, 5, 7 // blocks: sizes cycle 3,4,5 -> 6+24+120 = 150 per triple
+	npairs := len(allTypes) * len(allTypes) * pairShapes
 	if tier == "thorough" {
 		exhaustive, kmax, rmax = 10*(6+24+120+720), 6, 9
 	}
+	if i < npairs {
+		return genPair(i)
+	}
+	i -= npairs
 	if i < exhaustive {
 		// locate the block
 		sizes := []int{3, 4, 5}
@@ -464,7 +483,8 @@ func repairOrder(ops []Op) []Op {
 // spread through the cluster if they ever met in one update (defect F-C07d).
 func genPendingCluster(r *lib.Rng) *Case {
 	rel := [][2]string{{"I2", "T1"}, {"T1", "I2"}, {"any", "T1"}, {"T1", "any"}, {"I2", "I1"}, {"I1", "I2"},
-		{"any", "I2"}, {"I2", "T2"}, {"T2", "I2"}, {"T1", "T1"}, {"T1", "T2"}, {"any", "M"}}
+		{"any", "I2"}, {"I2", "T2"}, {"T2", "I2"}, {"T1", "T1"}, {"T1", "T2"}, {"any", "M"},
+		{"I2", "I2b"}, {"I2b", "NM"}, {"NM", "M"}, {"M", "NM"}, {"P3", "I2"}, {"I1", "P1"}, {"GI", "BI"}, {"GS", "GI"}, {"T1", "P1"}}
 	pr := rel[r.Intn(len(rel))]
 	bt, et := pr[0], pr[1] // branch condition type, type of the producer feeding the cluster
 	np := r.Range(2, 4)
@@ -480,7 +500,7 @@ func genPendingCluster(r *lib.Rng) *Case {
 		add(Op{K: "pass", Key: k})
 	}
 	cons := last + 1 // consumer behind the cluster
-	consIn := []string{"T1", "T2", "I2", "any", et, bt}[r.Intn(6)]
+	consIn := []string{"T1", "T2", "I2", "any", et, bt, et, bt}[r.Intn(8)]
 	add(Op{K: "node", Key: cons, In: consIn, Out: "T1"})
 	side := cons + 1
 	add(Op{K: "node", Key: side, In: et, Out: "T1"})
@@ -518,6 +538,64 @@ func genPendingCluster(r *lib.Rng) *Case {
 	add(Op{K: "edge", S: cons, E: 1})
 	if r.Chance(1, 2) {
 		add(Op{K: "edge", S: side, E: 1})
+	}
+	add(Op{K: "compile"})
+	return c
+}
+
+// The pair stream: for EVERY ordered pair (a, b) of types of the universe, every place where
+// the builder compares an upstream type a with a downstream type b (checkAssignable at an
+// edge between START/END, between two lambdas, through a passthrough node, at a branch
+// condition, at a branch typing its passthrough start node; type identity at a state
+// handler), as the smallest graph that has it.
+const pairShapes = 6
+
+func genPair(i int) *Case {
+	n := len(allTypes)
+	shape := i % pairShapes
+	a, b := allTypes[(i/pairShapes)/n], allTypes[(i/pairShapes)%n]
+	c := &Case{In: a, Out: b, Salt: i, Src: "pair"}
+	id := 0
+	add := func(o Op) {
+		o.ID = id
+		id++
+		c.Ops = append(c.Ops, o)
+	}
+	switch shape {
+	case 0: // START:a -> END:b
+		add(Op{K: "edge", S: 0, E: 1})
+	case 1: // START:a -> n2:(a->a) -> n3:(b->b) -> END:b
+		add(Op{K: "node", Key: 2, In: a, Out: a})
+		add(Op{K: "node", Key: 3, In: b, Out: b})
+		add(Op{K: "edge", S: 0, E: 2})
+		add(Op{K: "edge", S: 2, E: 3})
+		add(Op{K: "edge", S: 3, E: 1})
+	case 2: // START:a -> P -> END:b, the passthrough node typed from behind first
+		add(Op{K: "pass", Key: 2})
+		add(Op{K: "edge", S: 2, E: 1})
+		add(Op{K: "edge", S: 0, E: 2})
+	case 3: // a branch condition of type b at START:a
+		c.Out = a
+		add(Op{K: "node", Key: 2, In: a, Out: a})
+		add(Op{K: "branch", S: 0, Ty: b, Ends: []int{1, 2}, Choice: []int{1}})
+		add(Op{K: "edge", S: 2, E: 1})
+	case 4: // a branch condition of type b types the passthrough node P; then START:a -> P
+		add(Op{K: "pass", Key: 2})
+		add(Op{K: "node", Key: 3, In: b, Out: b})
+		add(Op{K: "branch", S: 2, Ty: b, Ends: []int{1, 3}, Choice: []int{1}})
+		add(Op{K: "edge", S: 0, E: 2})
+		add(Op{K: "edge", S: 3, E: 1})
+	case 5: // state handlers declared for b on a node of type a
+		c.Out = a
+		c.State = 1
+		h := &H{State: 1, Ty: b}
+		if i%2 == 0 {
+			add(Op{K: "node", Key: 2, In: a, Out: a, Pre: h})
+		} else {
+			add(Op{K: "node", Key: 2, In: a, Out: a, Post: h})
+		}
+		add(Op{K: "edge", S: 0, E: 2})
+		add(Op{K: "edge", S: 2, E: 1})
 	}
 	add(Op{K: "compile"})
 	return c
